@@ -6,6 +6,10 @@ ALL = ["C%02d" % i for i in range(1, 21)]
 
 # id -> (engine, level, technique, text, note, design_ref)
 CHECKS = {
+ "C03": ("mc-seq", "fault_enumeration",
+   "complete enumeration of stated mutation neighbourhoods (truncation, byte substitution, field boundary values, splices, grammar products) of a seed corpus through the whole real ingestion/analysis chain, with crash isolation",
+   "Cannot be decided for all byte strings by enumeration; decided is crash-freedom on an exhaustively enumerated neighbourhood: every truncation point, every offset x 7 substitution values, every recorded header / type-info / length / numeric / service-id / timestamp field x boundary table, every message-boundary splice of generated seeds, adjacent field pairs (thorough) and grammar products of text lines, each run through reader -> text rendering -> re-serialisation -> EAC statistics -> lifecycle detection and listing -> time sort -> filters -> all built-in plugins, with overflow checks on, panics caught with their location, worker death attributed to the announced case, and an allocation rule (no request >= 32 MiB that the unmutated seeds never make).",
+   "Trusted: seed corpus and field maps of the harness. Not covered: byte strings outside the neighbourhoods, BLF input, FIBEX/JSON plugin configurations other than the repository's.", "4 C03"),
  "C17": ("mc-seq", "model_checking",
    "exhaustive enumeration of transfer shapes x single faults x interleavings x configurations through the real file-transfer plugin API, file-system sandbox scan as oracle",
    "Every content length 1..9 x package size x single fault (drop / duplicate at every later position / swap / grow / shrink a package, drop FLST, drop FLFI) x 10 configs x both byte orders, with unrelated and near-miss messages at every position; 1-3 concurrent transfers differing in exactly one of serial / ECU / lifecycle under every interleaving; 12 announced file names x globs x pre-existing entries (file, directory, dangling symlink, symlink to file) x directory states; hostile FLST size announcements (>= 64 MiB products in a child process). Oracle: complete iff all packages in order (duplicates tolerated), saved and auto-saved bytes equal the original, nothing damaged saved as complete, sandbox scan shows no write outside the configured directory and no overwritten entry.",
